@@ -18,11 +18,14 @@
      verdict into `limit`, never into a wrong one); and for chains the limit error appears exactly when the
      chain is longer than the limit (GuardsExamples.v, boundary values by computation; C21_deep_chain_limit
      for every limit on an unbounded chain).
-   - At the level of a whole document the property IS violated by the two @defer walks, whose limit error
-     is discarded by their caller: C21_defer_limit_swallowed_refuted (finding, confirmed on the crate). *)
+   - At the level of a whole document the limit error of the three @defer walks used to be discarded by
+     their caller (former finding defer_walk_limit_swallowed, repaired in the code): validate_defer now
+     reports it, C21_defer_limit_reported; the behaviour before the repair is kept as gd_doc_walk_obs_old with
+     its witness, C21_defer_limit_swallowed_old_refuted. *)
 From Coq Require Import Sorting.Sorted Sorting.Permutation.
 From ApolloVerif Require Import Base.Chars Ast.Ast Schema.Model Valid.Guards Valid.GuardsProofs
-     Valid.SortProofs Valid.GuardsExamples Valid.CycleExact Valid.DeepChain Valid.Unguarded Valid.WalkExact.
+     Valid.SortProofs Valid.GuardsExamples Valid.CycleExact Valid.DeepChain Valid.Unguarded Valid.WalkExact
+     Valid.DeferReport.
 
 (* ---- guarded traversals: termination within limit + 1 activations, fuel independence, no truncation *)
 
@@ -278,18 +281,56 @@ Check C21_key_order : forall a b c : gd_key,
   (gd_key_le a b = true -> gd_key_le b a = true -> a = b) /\ gd_key_le None a = true.
 Print Assumptions C21_key_order.
 
-(* ---- the document-level statement "excessive depth produces recursion-limit diagnostics" is false:
-   a @defer walk stopped by the limit whose error is discarded, in a document for which no other guarded
-   walk reports anything (finding defer_walk_limit_swallowed; the same document with one fragment less
-   reports the @defer) *)
-Theorem C21_defer_limit_swallowed_refuted : exists d : document,
+(* ---- the document-level statement "excessive depth produces recursion-limit diagnostics" for validate_defer:
+   whenever one of its walks (walk_defers_in_selection_set over every operation and fragment definition,
+   forbid_defer_on_root, forbid_unconditional_defer) ends with the limit error, the diagnostics of the
+   document contain a RecursionError, for EVERY document *)
+Theorem C21_defer_limit_reported : forall d : document,
+  gwo_defer_truncated (gd_doc_walk_obs d) = true -> (1 <= gwo_recursion (gd_doc_walk_obs d))%N.
+Proof. exact defer_limit_reported. Qed.
+Check C21_defer_limit_reported : forall d : document,
+  gwo_defer_truncated (gd_doc_walk_obs d) = true -> (1 <= gwo_recursion (gd_doc_walk_obs d))%N.
+Print Assumptions C21_defer_limit_reported.
+
+(* the repair of validate_defer adds that diagnostic (once, and only to a list without a recursion-limit
+   diagnostic) and changes nothing else of what the guarded walks report *)
+Theorem C21_defer_repair_conservative : forall d : document,
   let o := gd_doc_walk_obs d in
-  gwo_defer_truncated o = true /\ gwo_defer_root o = 0%N /\ gwo_recursion o = 0%N /\ gwo_used_limit o = 0%N.
-Proof. exists (ex_defer_doc 10). exact ex_defer_swallowed. Qed.
-Check C21_defer_limit_swallowed_refuted : exists d : document,
+  let o' := gd_doc_walk_obs_old d in
+  gwo_used_limit o = gwo_used_limit o' /\ gwo_defer_root o = gwo_defer_root o' /\
+  gwo_uncond o = gwo_uncond o' /\ gwo_defer_truncated o = gwo_defer_truncated o' /\
+  gwo_recursion o = (gwo_recursion o' + gd_b2n (gwo_defer_truncated o' && (gwo_used_limit o' =? 0)%N))%N.
+Proof. exact defer_repair_conservative. Qed.
+Check C21_defer_repair_conservative : forall d : document,
   let o := gd_doc_walk_obs d in
+  let o' := gd_doc_walk_obs_old d in
+  gwo_used_limit o = gwo_used_limit o' /\ gwo_defer_root o = gwo_defer_root o' /\
+  gwo_uncond o = gwo_uncond o' /\ gwo_defer_truncated o = gwo_defer_truncated o' /\
+  gwo_recursion o = (gwo_recursion o' + gd_b2n (gwo_defer_truncated o' && (gwo_used_limit o' =? 0)%N))%N.
+Print Assumptions C21_defer_repair_conservative.
+
+(* validate_defer BEFORE the repair (gd_doc_walk_obs_old: the results of the walks discarded, `let _ =`): a
+   @defer walk stopped by the limit in a document for which no other guarded walk reports anything (former
+   finding defer_walk_limit_swallowed; the same document with one fragment less reports the @defer) *)
+Theorem C21_defer_limit_swallowed_old_refuted : exists d : document,
+  let o := gd_doc_walk_obs_old d in
   gwo_defer_truncated o = true /\ gwo_defer_root o = 0%N /\ gwo_recursion o = 0%N /\ gwo_used_limit o = 0%N.
-Print Assumptions C21_defer_limit_swallowed_refuted.
+Proof. exists (ex_defer_doc 10). exact ex_defer_swallowed_old. Qed.
+Check C21_defer_limit_swallowed_old_refuted : exists d : document,
+  let o := gd_doc_walk_obs_old d in
+  gwo_defer_truncated o = true /\ gwo_defer_root o = 0%N /\ gwo_recursion o = 0%N /\ gwo_used_limit o = 0%N.
+Print Assumptions C21_defer_limit_swallowed_old_refuted.
+
+(* non-vacuity of C21_defer_limit_reported: the witness of the former finding, a fragment definition nested
+   deeper than the limit (label walk), and a subscription whose other walks already reported the limit *)
+Example C21_defer_limit_reported_nonvacuous :
+  gwo_defer_truncated (gd_doc_walk_obs (ex_defer_doc 10)) = true /\
+  gwo_recursion (gd_doc_walk_obs (ex_defer_doc 10)) = 1%N /\
+  gwo_defer_truncated (gd_doc_walk_obs (ex_label_doc 500)) = true /\
+  gwo_recursion (gd_doc_walk_obs (ex_label_doc 500)) = 1%N /\
+  gwo_defer_truncated (gd_doc_walk_obs (ex_sub_chain_doc 600)) = true /\
+  gwo_recursion (gd_doc_walk_obs (ex_sub_chain_doc 600)) = 2%N.
+Proof. vm_compute. repeat split. Qed.
 
 (* ---- the unguarded recursion: validate_selection_set and its callees nest as deep as (fragments on a
    spread path) x (nesting of each definition): 50 fragments of 100 nested fields each (every definition far
